@@ -162,7 +162,7 @@ Section SldBounded.
   Variable budget : nat -> nat -> nat.
   Variable cur : nat.
 
-  Definition eb := evaluate_bounded (sld_ans P fu q) proj budget cur true.
+  Definition eb := evaluate_bounded (sld_ans P fu q) (fun _ => ERuntime) proj budget cur true.
 
   Theorem sld_prefix_mono n m : n <= m ->
     prefix (fst (sld_ans P fu q n)) (fst (sld_ans P fu q m)) /\
@@ -183,6 +183,6 @@ Section SldBounded.
       forall m, budget limit cur <= m -> projected proj 0 (fst (sld_ans P fu q m)) res_ /\ snd (sld_ans P fu q m) = Norm.
   Proof.
     intros G R S1 N T.
-    exact (@complete_when_shallow _ _ (sld_ans P fu q) (@sld_ans_mono P fu q) proj budget cur true st limit G R S1 N T).
+    exact (@complete_when_shallow _ _ (sld_ans P fu q) (@sld_ans_mono P fu q) (fun _ => ERuntime) proj budget cur true st limit G R S1 N T).
   Qed.
 End SldBounded.
